@@ -537,7 +537,8 @@ async fn case_stored_all(rng: &mut Rng, tag: usize, stats: &mut BTreeMap<String,
         verif_clock::set(t);
         // first some rows on both instances and one exchange, then a mix of every kind of write
         let (p, code) = if step < 4 { (step as usize % 2, 0) } else if step == 4 { (0, 7) } else if step == 5 { (1, 7) }
-                        else { (rng.below(2) as usize, *rng.pick(&[0u64, 2, 2, 3, 3, 3, 4, 4, 5, 7, 7])) };
+                        else if step == 6 { (0, 3) } else if step == 7 { (0, 8) } else if step == 8 { (1, 9) }
+                        else { (rng.below(2) as usize, *rng.pick(&[0u64, 2, 2, 3, 3, 3, 4, 8, 8, 9, 5, 7, 7])) };
         codes.push(code);
         match code {
             0 | 1 => {
@@ -559,6 +560,23 @@ async fn case_stored_all(rng: &mut Rng, tag: usize, stats: &mut BTreeMap<String,
                     let mut pa = Parameters::default(); pa.add("id", b64(&docs[x])).unwrap(); pa.add("other", b64(&docs[y])).unwrap();
                     match net.peers[p].db.delete("delete { ns.Doc{ $id refs[$other] } }", Some(pa)).await { Ok(d) => if std::env::var("C06_DEBUG").is_ok() { eprintln!("ref del: edges {} log {}", d.edges.len(), d.edge_log.len()) }, Err(e) => if std::env::var("C06_DEBUG").is_ok() { eprintln!("ref del: {}", e) } }
                 }
+            }
+            8 => {
+                // the OTHER identity (it holds mutate_all) removes a reference from a row it did not write
+                if let Some((author, x, y)) = refs.pop() {
+                    let q = 1 - author;
+                    net.barrier(0).await; net.barrier(1).await;
+                    let _ = net.pull(q, author, room, t).await;
+                    t += 1000; verif_clock::set(t);
+                    let mut pa = Parameters::default(); pa.add("id", b64(&docs[x])).unwrap(); pa.add("other", b64(&docs[y])).unwrap();
+                    let _ = net.peers[q].db.delete("delete { ns.Doc{ $id refs[$other] } }", Some(pa)).await;
+                }
+            }
+            9 => {
+                // ... and a reference that does not exist, on a row of the other identity
+                let (x, y) = (rng.below(docs.len() as u64) as usize, rng.below(docs.len() as u64) as usize);
+                let mut pa = Parameters::default(); pa.add("id", b64(&docs[x])).unwrap(); pa.add("other", b64(&docs[y])).unwrap();
+                let _ = net.peers[p].db.delete("delete { ns.Doc{ $id refs[$other] } }", Some(pa)).await;
             }
             5 => {
                 let x = rng.below(docs.len() as u64) as usize;
@@ -585,6 +603,121 @@ async fn case_stored_all(rng: &mut Rng, tag: usize, stats: &mut BTreeMap<String,
     for (i, name) in ["nodes", "edges", "node-tombstones", "edge-tombstones", "served-peers"].iter().enumerate() { *stats.entry(format!("stored.all.rows.{}", name)).or_insert(0) += counts[i]; }
     Case { kind: "stored-all".to_string(), coq: format!("CStoredAll {}", glist(&codes.iter().map(|c| gn(*c)).collect::<Vec<_>>())), obs: vec![failures],
            meta: json!({"nodes": counts[0], "edges": counts[1], "node_tombstones": counts[2], "edge_tombstones": counts[3], "served_peer_rows": counts[4], "refused_by_verify": failures}) }
+}
+
+// ---------------------------------------------------------------- the long-lived verification service
+use discret::verif_hooks::signature_verification_service::SignatureVerificationService;
+use discret::verif_hooks::database::room_node::RoomNode;
+
+fn row_of_node(n: &Node) -> Row {
+    Row { kind: 0, f: vec![V::B(n.id.to_vec()), match &n.room_id { Some(r) => V::B(r.to_vec()), None => V::N }, V::I(n.cdate), V::I(n.mdate), V::B(n._entity.as_bytes().to_vec()),
+                           match &n._json { Some(j) => V::B(j.as_bytes().to_vec()), None => V::N }, match &n._binary { Some(b) => V::B(b.clone()), None => V::N }, V::B(n.verifying_key.clone())] }
+}
+fn row_of_edge(e: &Edge) -> Row {
+    Row { kind: 1, f: vec![V::B(e.src.to_vec()), V::B(e.src_entity.as_bytes().to_vec()), V::B(e.label.as_bytes().to_vec()), V::B(e.dest.to_vec()), V::I(e.cdate), V::B(e.verifying_key.clone())] }
+}
+/// one field of the row changed, every other field (and, later, the signature) kept
+fn tamper(r: &Row, idx: usize, rng: &mut Rng) -> Option<Row> {
+    let mut q = r.clone();
+    let is_key = r.kind <= 3 && idx == r.f.len() - 1;
+    q.f[idx] = match &r.f[idx] {
+        V::I(z) => V::I(z.wrapping_add(1 + rng.below(1000) as i64)),
+        V::N => match (r.kind, idx) { (0, 1) => V::B(gen_uid(rng)), (0, 5) => V::B(b"{}".to_vec()), (0, 6) => V::B(vec![1, 2, 3]), _ => return None },
+        V::B(x) => {
+            if is_key { return None; }
+            if x.is_empty() { V::B(b"x".to_vec()) }
+            else if r.kind == 0 && (idx == 1 || idx == 5 || idx == 6) && rng.chance(1, 3) { V::N }
+            else { let mut y = x.clone(); let p = rng.below(y.len() as u64) as usize; y[p] = if y[p] == b'a' { b'b' } else { b'a' }; V::B(y) }
+        }
+    };
+    if q == *r { None } else { Some(q) }
+}
+#[derive(Clone)]
+struct Item { row: Row, src: Row, sig: Vec<u8> }   // `row` carries the signature honestly made for `src`
+fn item_coq(it: &Item) -> String {
+    format!("({}, {}, {}, {}, {}, {})", gn(it.row.kind as u64), it.row.coq(), gb(json_is_object(&it.row)), gn(it.src.kind as u64), it.src.coq(), gb(json_is_object(&it.src)))
+}
+async fn submit(svc: &SignatureVerificationService, kind: usize, items: &[Item]) -> Option<bool> {
+    match kind {
+        0 => { let mut v = vec![]; for it in items { if let Real::Node(mut n) = to_real(&it.row)? { n._signature = it.sig.clone(); v.push(n); } } Some(svc.verify_nodes(v).await.is_ok()) }
+        1 => { let mut v = vec![]; for it in items { if let Real::Edge(mut e) = to_real(&it.row)? { e.signature = it.sig.clone(); v.push(e); } } Some(svc.verify_edges(v).await.is_ok()) }
+        2 => { let mut v = vec![]; for it in items { if let Real::NDel { room, id, mdate, entity, ddate, key } = to_real(&it.row)? {
+                   v.push(NodeDeletionEntry { room_id: room, id, entity, mdate, deletion_date: ddate, verifying_key: key, signature: it.sig.clone(), entity_name: None }); } }
+               Some(svc.verify_node_log(v).await.is_ok()) }
+        _ => { let mut v = vec![]; for it in items { if let Real::EDel { room, src, se, label, dest, cdate, ddate, key } = to_real(&it.row)? {
+                   v.push(EdgeDeletionEntry { room_id: room, src, src_entity: se, dest, label, cdate, deletion_date: ddate, verifying_key: key, signature: it.sig.clone(), entity_name: None }); } }
+               Some(svc.verify_edge_log(v).await.is_ok()) }
+    }
+}
+
+/// one genuine row and its tampered copies through the long-lived service: alone, mixed, repeatedly
+async fn case_service_row(svc: &SignatureVerificationService, ctx: &mut Ctx, rng: &mut Rng, genuine: &Row) -> Option<Case> {
+    let real = to_real(genuine)?;
+    let (sok, sig) = sign_real(&real, &ctx.rec);
+    if !sok { return None; }
+    let g = Item { row: genuine.clone(), src: genuine.clone(), sig: sig.clone() };
+    let mut tampered: Vec<Item> = vec![];
+    for idx in 0..genuine.f.len() { if let Some(t) = tamper(genuine, idx, rng) { if to_real(&t).is_some() { tampered.push(Item { row: t, src: genuine.clone(), sig: sig.clone() }); } } }
+    let mut batches: Vec<Vec<Item>> = vec![vec![g.clone()]];                       // the genuine row goes through first
+    for t in &tampered { batches.push(vec![t.clone()]); }                          // every tampered copy alone
+    for t in tampered.iter().take(3) { batches.push(vec![g.clone(), t.clone()]); batches.push(vec![t.clone(), g.clone()]); }   // mixed with the genuine one
+    batches.push(vec![g.clone(), g.clone()]);
+    for t in &tampered { batches.push(vec![t.clone()]); }                          // and again
+    let mut obs = vec![];
+    for b in &batches { let ok = submit(svc, genuine.kind, b).await?; ctx.count(&format!("service.kind{}.{}", genuine.kind, if b.iter().all(|i| i.row == i.src) { if ok { "genuine-accepted" } else { "genuine-refused" } } else if ok { "TAMPERED-ACCEPTED" } else { "tampered-refused" })); obs.push(ok as i64); }
+    let terms: Vec<String> = batches.iter().map(|b| glist(&b.iter().map(item_coq).collect::<Vec<_>>())).collect();
+    Some(Case { kind: "service".to_string(), coq: format!("CService {}", glist(&terms)), obs, meta: json!({"row_kind": genuine.kind, "batches": batches.len(), "tampered_copies": tampered.len()}) })
+}
+
+fn room_items(rn: &RoomNode) -> (Vec<Node>, Vec<Edge>) {
+    let mut nodes = vec![rn.node.clone()];
+    let mut edges = rn.admin_edges.clone();
+    for u in &rn.admin_nodes { nodes.push(u.node.clone()); }
+    edges.extend(rn.auth_edges.clone());
+    for a in &rn.auth_nodes {
+        nodes.push(a.node.clone());
+        edges.extend(a.user_edges.clone()); for u in &a.user_nodes { nodes.push(u.node.clone()); }
+        edges.extend(a.right_edges.clone()); for r in &a.right_nodes { nodes.push(r.node.clone()); }
+        edges.extend(a.user_admin_edges.clone()); for u in &a.user_admin_nodes { nodes.push(u.node.clone()); }
+    }
+    (nodes, edges)
+}
+/// a real room definition through verify_room_node: genuine, then with one inner row / reference changed
+async fn case_service_room(svc: &SignatureVerificationService, ctx: &mut Ctx, tag: usize) -> Option<Case> {
+    let root = sync_common::work_root(&format!("C06/room_{}_{}", seed(), tag));
+    let net = sync_common::Net::start(1, STORE_MODEL, root).await;
+    let room = net.create_room(sync_common::T0 - DAY, &["ns.Doc"]).await;
+    let genuine = net.peers[0].db.get_room_node(room).await.ok()??;
+    net.cleanup();
+    verif_clock::clear();
+    let bytes = bincode::serialize(&genuine).ok()?;
+    let copy = || -> RoomNode { bincode::deserialize(&bytes).unwrap() };
+    let (gn_nodes, gn_edges) = room_items(&genuine);
+    // variants: (description, tampered room)
+    let mut variants: Vec<RoomNode> = vec![];
+    { let mut r = copy(); r.node.mdate += 1; variants.push(r); }
+    { let mut r = copy(); if let Some(a) = r.auth_nodes.get_mut(0) { a.node._json = a.node._json.clone().map(|j| j.replace("\"g\"", "\"h\"")); } variants.push(r); }
+    { let mut r = copy(); if let Some(a) = r.auth_nodes.get_mut(0) { if let Some(x) = a.right_nodes.get_mut(0) { x.node._json = x.node._json.clone().map(|j| j.replace("false", "true").replace("ns.Doc", "ns.Dog")); } } variants.push(r); }
+    { let mut r = copy(); if let Some(u) = r.admin_nodes.get_mut(0) { u.node.cdate += 5; } variants.push(r); }
+    { let mut r = copy(); if let Some(e) = r.admin_edges.get_mut(0) { e.cdate += 1; } variants.push(r); }
+    { let mut r = copy(); if let Some(e) = r.auth_edges.get_mut(0) { e.label.push('x'); } variants.push(r); }
+    let mut submissions: Vec<RoomNode> = vec![copy()];
+    for v in &variants { submissions.push(bincode::deserialize(&bincode::serialize(v).unwrap()).unwrap()); }
+    submissions.push(copy());
+    for v in &variants { submissions.push(bincode::deserialize(&bincode::serialize(v).unwrap()).unwrap()); }
+    let mut obs = vec![]; let mut terms = vec![];
+    for sub in submissions {
+        let (ns, es) = room_items(&sub);
+        let mut items: Vec<Item> = vec![];
+        for (n, g) in ns.iter().zip(gn_nodes.iter()) { items.push(Item { row: row_of_node(n), src: row_of_node(g), sig: vec![] }); }
+        for (e, g) in es.iter().zip(gn_edges.iter()) { items.push(Item { row: row_of_edge(e), src: row_of_edge(g), sig: vec![] }); }
+        let genuine_all = items.iter().all(|i| i.row == i.src);
+        let ok = svc.verify_room_node(sub).await.is_ok();
+        ctx.count(&format!("service.room.{}", if genuine_all { if ok { "genuine-accepted" } else { "genuine-refused" } } else if ok { "TAMPERED-ACCEPTED" } else { "tampered-refused" }));
+        obs.push(ok as i64);
+        terms.push(glist(&items.iter().map(item_coq).collect::<Vec<_>>()));
+    }
+    Some(Case { kind: "service-room".to_string(), coq: format!("CService {}", glist(&terms)), obs, meta: json!({"rows_in_room": gn_nodes.len() + gn_edges.len()}) })
 }
 
 fn uid_a() -> Vec<u8> { vec![0x41; 16] }
@@ -699,6 +832,23 @@ async fn main() {
         }
     }
     let _ = std::fs::remove_dir_all(&dbdir);
+
+    // ---------------- ONE verification service for the whole run: genuine rows first, then tampered copies
+    {
+        let svc = SignatureVerificationService::start(1);
+        // directed: a node whose every field is changed in turn (the signature stays)
+        let g0 = Row { kind: 0, f: vec![V::B(uid_a()), V::B(b"0123456789abcdef".to_vec()), V::I(5), V::I(7), V::B(b"ns.Doc".to_vec()), V::B(b"{\"a\":1}".to_vec()), V::B(vec![1, 2, 3]), kb()] };
+        if let Some(c) = case_service_row(&svc, &mut ctx, &mut rng, &g0).await { cases.push(Case { kind: "service-directed".to_string(), ..c }); }
+        let mut made = 0; let mut tries = 0;
+        while made < scale(36, 360) && tries < 4000 {
+            tries += 1;
+            let kind = [0usize, 0, 1, 2, 3][tries % 5];
+            let r = gen_row(&mut rng, kind, &key);
+            if r.f.iter().any(|v| matches!(v, V::B(x) if x.len() > 48)) { continue; }
+            if let Some(c) = case_service_row(&svc, &mut ctx, &mut rng, &r).await { cases.push(c); made += 1; }
+        }
+        for n in 0..scale(2, 10) { if let Some(c) = case_service_room(&svc, &mut ctx, n).await { cases.push(c); } }
+    }
 
     // ---------------- stored rows on real instances (directed first)
     for n in 0..scale(14, 140) { let d = if n < 2 { Some(n) } else { None }; let c = case_peer_store(&mut rng, n, d, &mut ctx.stats).await; cases.push(c); }
